@@ -220,7 +220,7 @@ func genDeletion(r *h.Rand, emit func([]string)) {
 
 func genMalformed(r *h.Rand, emit func([]string)) {
 	emit([]string{"rp db0 rp0 0 0", "ms nodb rp0 - 1,2", "ms db0 norp - 1", "csg db0 rp0 5", "frob 1 2", "ms db0 rp0 x 1",
-		"exp db0 rp0 1", "dc db0:rp0", "del db0 rp0 99", "find db0 rp0 5", "find db0 rp0 99999999999999999999999",
+		"exp db0 rp0 1", "dc db0:rp0", "ms db0 rp0 1900000000000000000 5", "dc db0:rp0:1800000000000000000", "del db0 rp0 99", "find db0 rp0 5", "find db0 rp0 99999999999999999999999",
 		"range db0 rp0 0 10", "dump nodb rp0", "dump db0 norp", "rp db0 rp0 7200000000000 0", "rp db$ rp0 1 1",
 		"store local 1,2,x", "store what 1", "dropshard 77", "restart", "dc -"})
 	// zero / negative shard group durations: `nil shard group`
